@@ -101,8 +101,15 @@ def render(tree, refs):
         return txt, 11, v
     if k in ("cast", "castif", "castfi"):
         v = None
-        if k == "castif" and (not isinstance(vals[0], float) or vals[0] != vals[0] or abs(vals[0]) >= 2147483648.0):
-            v = "ub"            # float -> int conversion out of range is undefined: no C value to compare with
+        if k == "castif":
+            # float -> int conversion out of range is undefined (no C value to compare with) and clang does not
+            # diagnose it; the evaluator model cannot vouch for C's operand value (it differs from C exactly where the
+            # defects are), so only a float *literal* operand of small magnitude is let through
+            t = ch[0]
+            while t[0][0] == "par":
+                t = t[1][0]
+            if t[0][0] != "flt" or abs(FLOATV[t[0][1]]) >= 2147483648.0:
+                v = "ub"
         if "ub" in vals or "panic" in vals:
             v = "ub" if "ub" in vals else "panic"
         return "(%s)%s" % (s[1], par(0, 11)), 11, v
